@@ -379,3 +379,81 @@ def lemma_queue_file_blocks(ctx):
     for k in ["whole", "cloned", "sparse-empty"] + ["extents%d" % i for i in range(1, nmax + 1)]:
         (ctx.passed if k in kinds else ctx.fail)("witness: path kind " + k, str(sorted(kinds)))
     ctx.bounds = "extent lists of 0..%d extents; all reflink modes x clone outcomes; whole-file / extent / unsupported branches; one fault" % nmax
+
+
+def lemma_partition_native(ctx):
+    """translator validation against the real binary: for concrete (size, block size) pairs the block list computed by
+    the MIR interpreter for queue_file_range must be exactly the copy_file_range requests the real xcp issues (strace)."""
+    import os
+    import random
+    import shutil
+    import subprocess
+    root = ctx.scr.root
+    src = os.path.join(root, "mirsrc")
+    ctx.mir("libxcp")     # makes sure mirsrc exists and is current
+    tdir = os.path.join(root, "nativetarget")
+    if not os.path.isdir(tdir) and os.path.isdir("/repo/target/debug"):
+        subprocess.call(["cp", "-a", "/repo/target", tdir])
+    env = dict(os.environ, CARGO_NET_OFFLINE="true", CARGO_TARGET_DIR=tdir, RUST_BACKTRACE="0")
+    r = subprocess.run(["cargo", "build", "--offline", "-q"], cwd=src, env=env, capture_output=True, text=True)
+    if r.returncode != 0:
+        raise EngineAbort("native build failed: " + r.stderr[-400:])
+    xcp = os.path.join(tdir, "debug", "xcp")
+    rnd = random.Random(ctx.seed or 1)
+    pairs = [(0, 4096), (1, 4096), (4095, 4096), (4096, 4096), (4097, 4096), (3 * 4096, 4096), (10000, 1000)]
+    pairs += [(rnd.randrange(1, 200000), rnd.choice([512, 1000, 4096, 65536])) for _ in range(3 if ctx.tier == "quick" else 12)]
+    work = os.path.join(root, "native-io")
+    shutil.rmtree(work, ignore_errors=True)
+    os.makedirs(work)
+    n_ok = 0
+    for size, bs in pairs:
+        # --- interpreter, concretely
+        eng = ctx.engine("libxcp", loop_bound=size // bs + 4)
+        install_env(ctx, eng)
+        eng.add_summary(r"^ThreadPool::execute::<", lambda e, st, c, a, d: Outcome(UnitV(), events=[Event("execute", [a[1]], None)]))
+        fn = fn_named(eng.funcs, "queue_file_range")
+        st = State()
+        cfg, cv = mk_config(ctx, eng, st, fixed={"block_size": IntV(bs, "u64")})
+        handle = mk_handle(ctx, eng, st, cfg)
+        harc = mk_arc(handle, "Arc<operations::CopyHandle>", "harc", rc=1)
+        rng = AggV("std::ops::Range<u64>", None, [IntV(0, "u64"), IntV(size, "u64")])
+        upd = RefV(Cell(mk_arc(OpaqueV("dyn StatusUpdater", "updater"), "Arc<dyn StatusUpdater>", "stat", rc=1)))
+        paths = [p for p in eng.run(fn.name, [RefV(Cell(harc)), rng, RefV(Cell(OpaqueV("ThreadPool", "pool"))), upd], st) if p.status == "return"]
+        if len(paths) != 1:
+            ctx.fail("translator validation (native): concrete partition runs to a single result", "size=%d bs=%d: %d paths" % (size, bs, len(paths)))
+            continue
+        pred = []
+        for e in paths[0].trace:
+            if e.name == "execute":
+                f = _closure_fields(e.args[0])
+                pred.append((z3.simplify(f["off"].t).as_long(), z3.simplify(f["bytes"].t).as_long()))
+        # --- the real binary under strace
+        d = os.path.join(work, "c%d_%d" % (size, bs))
+        os.makedirs(d)
+        with open(os.path.join(d, "src"), "wb") as fh:
+            fh.write(bytes(rnd.getrandbits(8) | 1 for _ in range(size)))
+        tr = os.path.join(d, "trace")
+        rr = subprocess.run(["strace", "-f", "-o", tr, "-e", "trace=copy_file_range", xcp, "--driver", "parblock", "--reflink", "never",
+                             "--workers", "1", "--block-size", str(bs), "src", "dst"], cwd=d, env=env, capture_output=True, text=True)
+        if rr.returncode != 0:
+            ctx.fail("translator validation (native): xcp copies the file", "size=%d bs=%d: rc=%d %s" % (size, bs, rr.returncode, rr.stderr[-200:]))
+            continue
+        real = []
+        for line in open(tr):
+            m = re.search(r"copy_file_range\(\d+, \[(\d+)[^\]]*\], \d+, \[(\d+)[^\]]*\], (\d+), 0\)\s+= (\d+)", line)
+            if m:
+                real.append((int(m.group(1)), int(m.group(3)), int(m.group(4))))
+        same_bytes = open(os.path.join(d, "src"), "rb").read() == open(os.path.join(d, "dst"), "rb").read()
+        full = all(ret == ln for _o, ln, ret in real)
+        if not same_bytes:
+            ctx.fail("translator validation (native): destination equals source", "size=%d bs=%d" % (size, bs))
+        elif full and sorted((o, ln) for o, ln, _r in real) != sorted(pred):
+            ctx.fail("translator validation (native): the interpreter's block list equals the real binary's copy_file_range requests",
+                     "size=%d bs=%d: interpreter %r, strace %r" % (size, bs, sorted(pred)[:6], sorted(real)[:6]))
+        else:
+            n_ok += 1
+    shutil.rmtree(work, ignore_errors=True)
+    shutil.rmtree(tdir, ignore_errors=True)
+    (ctx.passed if n_ok == len(pairs) else ctx.fail)("translator validation (native): interpreter and real binary agree on the block partition", "%d/%d" % (n_ok, len(pairs)))
+    ctx.validated = getattr(ctx, "validated", 0) + n_ok
+    ctx.bounds = "%d concrete (size, block size) pairs, real binary under strace vs MIR interpreter" % len(pairs)
